@@ -6,6 +6,7 @@ import (
 	"fmt"
 	"path/filepath"
 	"runtime"
+	"strings"
 	"sync"
 	"sync/atomic"
 	"testing"
@@ -201,6 +202,9 @@ func TestC16(t *testing.T) {
 		}
 		v, shared, failed := c16Run(p)
 		if v != nil {
+			if strings.Contains(v.Msg, "within") {
+				failNoShrink(replayDoc{Property: "C16", Kind: "batch-program", Extra: mustJSON(p)}, v)
+			}
 			failCase(rt, replayDoc{Property: "C16", Kind: "batch-program", Extra: mustJSON(p)}, v)
 		}
 		labels := map[string]int{fmt.Sprintf("batchsize-%d", p.BatchSize): 1, fmt.Sprintf("delay-%dms", p.DelayMs): 1}
